@@ -354,12 +354,32 @@ func (x *Exec) applyContract(st *State, fi int, ct *Contract, callee *ssa.Functi
 		}
 		names = append([]string{recvName}, names...)
 	}
+	var escaped []*Cell
 	for i, a := range args {
+		if a.T.S == "" && a.Fn == nil && a.Loc != nil && a.Loc.Cell != nil && len(a.Loc.Path) == 0 {
+			// the address of a local is handed to the callee: it may write the
+			// local (havoced after the call); the pointer itself is opaque
+			escaped = append(escaped, a.Loc.Cell)
+			r := x.decls.Fresh("addrof."+a.Loc.Cell.name, "Ref")
+			st.assume(Not(Eq(r, NullT)))
+			a = Value{T: r, Typ: a.Typ}
+			args[i] = a
+		}
 		if i < len(names) {
 			if a.T.S == "" && (a.Fn != nil || a.Loc != nil) {
 				a.T = x.valueTerm(a)
 			}
 			env.vars[names[i]] = a
+		}
+	}
+	if len(escaped) > 0 {
+		k1 := k
+		k = func(st2 *State, res Value) {
+			for _, c := range escaped {
+				x.recCell(c)
+				st2.cells[c] = x.freshValue(st2, "escaped."+c.name, c.typ)
+			}
+			k1(st2, res)
 		}
 	}
 	// requires
@@ -413,7 +433,16 @@ func (x *Exec) applyContract(st *State, fi int, ct *Contract, callee *ssa.Functi
 			}
 		}
 		if full {
-			x.havocAll(st2, except)
+			// no modifies clause at all: the callee may also change ghost state
+			x.havocAllG(st2, except, ct.HasMod)
+			if !ct.HasMod {
+				if t, ok := st2.heap["G$loglen"]; ok {
+					_ = t
+				}
+				nl := x.decls.Fresh("post.G$loglen", "Int")
+				st2.assume(Le(IntLit(0), nl))
+				st2.heap["G$loglen"] = nl
+			}
 		}
 		for _, name := range sortedKeys(mods) {
 			objs := mods[name]
@@ -508,6 +537,9 @@ func (x *Exec) applyContract(st *State, fi int, ct *Contract, callee *ssa.Functi
 			if t, ok := x.evalClause(st2, &penv, en); ok {
 				st2.assume(t)
 			}
+		}
+		if len(ct.Ensures) > 0 && fi == 0 && x.muted == 0 {
+			x.reachOnce(st2, "after "+anchor)
 		}
 		k(st2, res)
 	}
